@@ -148,17 +148,35 @@ def d1(ctx, rep):
         a = fits[0].args
         ok_idx = len(a) >= 4 and isinstance(a[0], ast.Name) and a[0].id == kv
         ok_nodes = len(a) >= 4 and nf.nf(a[1]) == nf.nf(ast.parse(f'{tv.self_name}.n_var - {kv}', mode='eval').body)
+        def tree_index(e):
+            """NF of i when e denotes self.trees[i] (directly or through a single-definition local); 'other' for another recognised
+            expression; None when not derivable."""
+            e = single_def(tv.node, e.id) if isinstance(e, ast.Name) and isinstance(single_def(tv.node, e.id), ast.AST) else e
+            if isinstance(e, ast.Subscript) and is_self_attr(e.value, tv.self_name, 'trees'):
+                return nf.nf(e.slice)
+            if isinstance(e, ast.Subscript) and isinstance(e.value, ast.Name):
+                d_ = single_def(tv.node, e.value.id)
+                if is_self_attr(d_, tv.self_name, 'trees'):
+                    return nf.nf(e.slice)
+            return 'other' if isinstance(e, (ast.Attribute, ast.Constant, ast.Call)) else None
+        want_prev = nf.nf(ast.parse(f'{kv} - 1', mode='eval').body)
+        last_nf = nf.nf(ast.parse('-1', mode='eval').body)
         prev = a[3] if len(a) >= 4 else None
-        ok_prev = isinstance(prev, ast.Subscript) and is_self_attr(prev.value, tv.self_name, 'trees') \
-            and nf.nf(prev.slice) == nf.nf(ast.parse(f'{kv} - 1', mode='eval').body)
-        rep.check('D1.trees', tv, fits[0], ok_idx and ok_nodes and ok_prev, 'tree k is fitted with index k on n_var - k nodes from trees[k - 1]',
-                  'tree k is not fitted with (k, n_var - k, tau of tree k-1, trees[k-1])', construct='tree k arguments')
+        pi = tree_index(prev) if prev is not None else None
+        if pi is None:
+            rep.undecided('D1.trees', tv, fits[0], 'which tree is handed to tree k as its previous tree is not derived', construct='tree k arguments')
+        else:
+            ok_prev = pi in (want_prev, last_nf)
+            rep.check('D1.trees', tv, fits[0], ok_idx and ok_nodes and ok_prev, 'tree k is fitted with index k on n_var - k nodes from trees[k - 1]',
+                      'tree k is not fitted with (k, n_var - k, tau of tree k-1, trees[k-1])', construct='tree k arguments')
         tau = a[2] if len(a) >= 3 else None
         tdef = single_def(tv.node, tau.id) if isinstance(tau, ast.Name) else tau
-        ok_tau = isinstance(tdef, ast.Call) and call_name(tdef) == 'get_tau_matrix' and isinstance(tdef.func.value, ast.Subscript) \
-            and nf.nf(tdef.func.value.slice) == nf.nf(ast.parse(f'{kv} - 1', mode='eval').body)
-        rep.check('D1.trees', tv, fits[0], ok_tau, 'the tau matrix of tree k comes from tree k - 1', 'tree k does not receive the tau matrix of tree k-1',
-                  construct='tree k tau')
+        if isinstance(tdef, ast.Call) and call_name(tdef) == 'get_tau_matrix' and isinstance(tdef.func, ast.Attribute) and tree_index(tdef.func.value) is not None:
+            ti = tree_index(tdef.func.value)
+            rep.check('D1.trees', tv, fits[0], ti in (want_prev, last_nf), 'the tau matrix of tree k comes from tree k - 1', 'tree k does not receive the tau matrix of tree k-1',
+                      construct='tree k tau')
+        else:
+            rep.undecided('D1.trees', tv, fits[0], 'where the tau matrix handed to tree k comes from is not derived', construct='tree k tau')
     first = [c for c in walk_no_nested(tv.node) if isinstance(c, ast.Call) and call_name(c) == 'fit' and loop_of(c, tv) is None]
     if first:
         a = first[0].args
